@@ -148,6 +148,24 @@ def run(task):
                                 "case": {"spec": spec, "nts": [pool[i] for i in order], "point": point},
                                 "sig": h([point, g, want, missing, twice, len(combo), len(res["violations"]) // 3])})
                     seen_v.add(h(got))
+                if want_hard == "ok" and size <= 3:
+                    # call history on ONE object: valid for this continuum, then checked against a continuum with
+                    # one more unit (must be refused), then against the first again (must be accepted again)
+                    from pyannote.core import Segment
+                    al = pa.Alignment([pa.UnitaryAlignment([(a, None if x is None else to_unit(x)) for a, x in pool[i]])
+                                       for i in combo])
+                    bigger = build_continuum(spec)
+                    bigger.add(byann[0][0], Segment(40, 41), "extra")
+                    seq = [verdict(lambda: al.check(c)), verdict(lambda: al.check(bigger)), verdict(lambda: al.check(c))]
+                    res["evaluations"] += 3
+                    res["transitions"] += 3
+                    res["traces"] += 3
+                    if seq != ["ok", "SetPartitionError", "ok"]:
+                        res["violations"].append({
+                            "msg": f"one alignment object checked against (its continuum, a continuum with one more "
+                                   f"unit, its continuum): verdicts {seq}, expected ok / SetPartitionError / ok",
+                            "case": {"spec": spec, "nts": [pool[i] for i in combo], "point": "hard.check(c)"},
+                            "sig": h(["seq", seq, len(res["violations"]) // 3])})
                 res["outcomes"].append(h([sorted(counts.values()), sorted(seen_v)]))
                 if len(seen_v) > 1:
                     # same multiset, different verdicts in different orders (only counted if not already reported)
